@@ -823,8 +823,10 @@ func writeChunk(w http.ResponseWriter, chk chunk) error {
 	if err != nil {
 		return err
 	}
-	flusher := w.(http.Flusher)
-	flusher.Flush()
+	// Not every ResponseWriter can flush (e.g. the recording writer of the patch handler)
+	if flusher, ok := w.(http.Flusher); ok {
+		flusher.Flush()
+	}
 	return nil
 }
 
